@@ -9,7 +9,7 @@ from ..cfg import NORMAL, Node
 from ..core import Ctx
 from ..flow import ALL, find_path, names_in
 from ..model import AnalysisError, FunctionInfo, dotted, norm_text
-from .common import (owner_tops, edge_target, fold_str, hint_value, hint_write_nodes, hint_writers, kwarg, path_arg, scenario_walk, facts_at,
+from .common import (owner_tops, explore, edge_target, fold_str, hint_value, hint_write_nodes, hint_writers, kwarg, path_arg, scenario_walk, facts_at,
                      reachable_from)
 
 EXPLANATION = (
@@ -352,8 +352,10 @@ def r3(ctx: Ctx, rid: str) -> None:
     for label, entry in (("root", "metadata/" + sample), ("sub-directory", "metadata/manifests/" + sample)):
         env = {lp.ast.target.id: entry}  # type: ignore[union-attr]
         env.update({p: "metadata" for p in mpaths})
-        reached, undec = scenario_walk(ctx, rc, [body] if body is not None else [], env, stop=[lp.id] + [a.id for a in accept])
-        res[label] = (any(a.id in reached for a in accept), undec)
+        outs = explore(ctx, rc, [body] if body is not None else [], env, stop=[lp.id] + [a.id for a in accept])
+        hits = [st for nid, st, _asm in outs if nid in {a.id for a in accept}]
+        decided_hit = any(not any(isinstance(k, tuple) and k[0] == "undecided" for k in st) for st in hits)
+        res[label] = (bool(hits), bool(hits) and not decided_hit)
     ctx.ob(rid, rc, "recovery considers files directly in metadata/ only", lp,
            bool(accept) and res["root"][0] and (res["sub-directory"][1] or not res["sub-directory"][0]),
            f"scenario 'metadata/v3-*.metadata.json': candidate accepted = {res['root'][0]}; scenario "
